@@ -1,28 +1,61 @@
 ---- MODULE TracePoolFork ----
-(* Monitor for the fork-switch clause of C18 on a real engine: after every InsertBlock the harness logs the head and
-   the pool content (GetTxs with a size larger than the universe); the pool must hold exactly the universe's
-   transactions that are not on the head's chain. *)
+(* Monitor for the fork-switch clause of C18 on a real engine.  The harness logs the universe once (reset: parent,
+   transactions and time of every block, expiration of every transaction, all relative to genesis time) and after
+   every InsertBlock / InsertConfirms the chain state the real node is in (head, stable block) and the pool content:
+   GetTxs at `now`, the latest block time the node has seen, with a size larger than the universe.  The monitor
+   ADOPTS the logged chain state (which block becomes head or stable is C03's business, it only has to be a
+   well-formed state of the logged tree) and JUDGES the pool: it must hold exactly the transactions the node was
+   ever given (seen) that are not expired at `now` and not on the head's chain - whether the head moved by extension,
+   by a fork switch, by a fork switch forced by a stable change (own fork cut), with or without the guard having
+   been pruned by time.  seen = the transactions submitted to the pool before the run (logged at reset) and those of
+   every block the node accepted since, on whatever fork. *)
 EXTENDS TraceBase
-VARIABLES parent, txs, all, known, head
-pvars == <<parent, txs, all, known, head, l>>
+VARIABLES parent, txs, time, exp, all, known, stable, head, now, seen
+pvars == <<parent, txs, time, exp, all, known, stable, head, now, seen, l>>
 G == 0
 RECURSIVE Anc(_)
 Anc(b) == IF b = G THEN {G} ELSE {b} \cup Anc(parent[b])
+H(b) == Cardinality(Anc(b)) - 1
 OnChain(b) == UNION {ToSet(txs[x]) : x \in Anc(b) \ {G}}
+Live(n) == {t \in all : exp[t] >= n}                                      \* TxPool: expired iff Expiration < time
+Prune(kn, st) == {b \in kn : b \in Anc(st) \/ st \in Anc(b)}               \* SetStableBlock drops the other forks
+Judge(hd, nw, sn, pl) ==
+  /\ Len(pl) = Cardinality(ToSet(pl))                       \* no duplicates handed out
+  /\ ToSet(pl) \subseteq sn \cap Live(nw)                   \* nothing expired, nothing the node was never given
+  /\ ToSet(pl) \cap OnChain(hd) = {}                        \* none that are on the (new) current fork
+  /\ (sn \cap Live(nw)) \ OnChain(hd) \subseteq ToSet(pl)   \* the abandoned / side forks' transactions are pending, nothing pending was lost
+\* the logged chain state is a state of the logged tree: stable moved forward along known blocks, head on top of it
+Adopt(kn, st, hd) ==
+  /\ st \in kn /\ stable \in Anc(st)
+  /\ hd \in Prune(kn, st) /\ st \in Anc(hd)
+  /\ known' = Prune(kn, st) /\ stable' = st /\ head' = hd
 TReset == /\ Ev("reset")
-          /\ parent' = E.parent /\ txs' = E.txs /\ all' = ToSet(E.all)
-          /\ ToSet(E.pool) = ToSet(E.all)
-          /\ known' = {G} /\ head' = G
+          /\ parent' = E.parent /\ txs' = E.txs /\ time' = E.time /\ exp' = E.exp /\ all' = ToSet(E.all)
+          /\ known' = {G} /\ stable' = G /\ head' = G /\ now' = E.now
+          /\ E.now = 0
+          /\ ToSet(E.pend) \subseteq ToSet(E.all)
+          /\ ToSet(E.pool) = ToSet(E.pend) /\ Len(E.pool) = Len(E.pend)   \* what was submitted is pending and alive at genesis time
+          /\ seen' = ToSet(E.pend)
+          /\ \A t \in ToSet(E.all) : E.exp[t] >= 0
 TInsert == /\ Ev("InsertBlock")
            /\ LET b == E.a[1] IN
-              /\ E.ok /\ b \notin known /\ parent[b] \in known
-              /\ E.head \in known \cup {b}
-              /\ Len(E.pool) = Cardinality(ToSet(E.pool))                \* no duplicates handed out
-              /\ ToSet(E.pool) \cap OnChain(E.head) = {}                 \* none that are on the (new) current fork
-              /\ all \ OnChain(E.head) \subseteq ToSet(E.pool)           \* the abandoned fork's transactions are back
-              /\ ToSet(E.pool) \subseteq all
-              /\ known' = known \cup {b} /\ head' = E.head
-           /\ UNCHANGED <<parent, txs, all>>
-TraceNext == TReset \/ TInsert
-TraceSpec == l = 1 /\ parent = <<>> /\ txs = <<>> /\ all = {} /\ known = {G} /\ head = G /\ [][TraceNext]_pvars
+              /\ b \in 1..Len(parent)
+              /\ E.ok <=> (b \notin known /\ parent[b] \in known /\ H(b) > H(stable))
+              /\ IF E.ok THEN Adopt(known \cup {b}, E.stable, E.head) /\ E.now >= now /\ E.now >= time[b]
+                         ELSE Adopt(known, E.stable, E.head) /\ E.now = now
+              /\ now' = E.now
+              /\ seen' = IF E.ok THEN seen \cup ToSet(txs[b]) ELSE seen
+              /\ Judge(E.head, E.now, seen', E.pool)
+           /\ UNCHANGED <<parent, txs, time, exp, all>>
+\* a confirm packet: accepted or not, the stable block may move and cut the current fork
+TConfirm == /\ Ev("InsertConfirms")
+            /\ E.a[1] \in known
+            /\ Adopt(known, E.stable, E.head)
+            /\ E.now = now
+            /\ Judge(E.head, E.now, seen, E.pool)
+            /\ UNCHANGED <<parent, txs, time, exp, all, now, seen>>
+TraceNext == TReset \/ TInsert \/ TConfirm
+TraceSpec == /\ l = 1 /\ parent = <<>> /\ txs = <<>> /\ time = <<>> /\ exp = <<>> /\ all = {}
+             /\ known = {G} /\ stable = G /\ head = G /\ now = 0 /\ seen = {}
+             /\ [][TraceNext]_pvars
 ====
